@@ -6,7 +6,7 @@ CONSTANTS
   MaxTx = 5
   Fuel = 3
   Level = 2
-  Genesis <- Genesis0
+  Genesis <- GenesisAdm
   CallMenu <- AdmCalls
   BehMenu <- AdmMenu
 VIEW view
